@@ -141,6 +141,21 @@ Theorem array_items_typed : forall Sc a q te k preal d,
 Proof. exact array_items_typed_l. Qed.
 Print Assumptions array_items_typed.
 
+(* An element with a one-dimensional arrayType whose real type is an array,
+   with at least one item, all items under one name, none of them decoding to
+   None (nil items are dropped by Core.append_children: outside the family),
+   ANY number of items: the result is the list of the items' values, each item
+   decoded with xsi:type = the type named by arrayType where it has none. *)
+Theorem array_is_list : forall f Sc ns nm attrs tx ks cx a d real inm vs,
+  aty1 attrs = Some a ->
+  start Sc cx (tnode (T ns nm attrs tx (map (tadd_type a) ks))) = Some (d, real) ->
+  (t_def real = DArray \/ t_def real = DAny) ->
+  ks <> [] -> (forall k, In k ks -> t_name k = inm) ->
+  Forall2 (fun k v => dect f Sc (tadd_type a k) (CChild real) = DOk v /\ v <> PNone) ks vs ->
+  dect (S f) Sc (T ns nm attrs tx ks) cx = DOk (PList vs).
+Proof. exact array_is_list_l. Qed.
+Print Assumptions array_is_list.
+
 (* ------------------------------------------------------------------ *)
 (* non-vacuity and the refutation witness                              *)
 (* ------------------------------------------------------------------ *)
@@ -273,4 +288,10 @@ Example empty_array_nonvacuous :
   dect 3 ex_schema (T 0 25 [mkA NS_ENC NM_ATY [120; 58; 105; 110; 116; 91; 48; 93]%N (Some (2, 28)%N)] None [])
        (CChild (mkT (10, 23)%N (Some 23%N)
           (DStruct [mkF 25 (10, 30)%N false false]))) = DOk (PList []).
+Proof. vm_compute. reflexivity. Qed.
+
+Example array_is_list_nonvacuous :
+  dect 3 ex_schema (T 0 25 [a_ints] None [T 0 27 [] (Some [49]%N) []; T 0 27 [] (Some [50]%N) []])
+       (CChild (mkT (10, 23)%N (Some 23%N) (DStruct [mkF 25 (10, 30)%N false false])))
+  = DOk (PList [PVal 1 [49]%N; PVal 1 [50]%N]).
 Proof. vm_compute. reflexivity. Qed.
